@@ -77,6 +77,25 @@ func nontrivial(m *ref.SNode) bool {
 	return feat && m.CountNodes() >= 3
 }
 
+// addAP gives some objects an additionalProperties rule in one of its spellings: the AST shows
+// the value with the kind of token it is written with ("false" in quotes is a string, null a null).
+func addAP(t *rapid.T, m *ref.SNode) {
+	m.Walk(func(n *ref.SNode) {
+		if n.Kind != ref.SObj || n.Rule("additionalProperties") != nil || n.Rule("allOf") != nil || n.Rule("or") != nil || n.TypeName() != "" {
+			return
+		}
+		if rapid.IntRange(0, 3).Draw(t, "ap") == 0 {
+			tok := rapid.SampledFrom([]string{`"false"`, `"true"`, "null", `"any"`, "true", "false", `"string"`, `"null"`}).Draw(t, "apTok")
+			r := gen.TokRule("additionalProperties", tok)
+			if rapid.Bool().Draw(t, "apFirst") {
+				n.Rules = append([]ref.SRule{r}, n.Rules...)
+			} else {
+				n.Rules = append(n.Rules, r)
+			}
+		}
+	})
+}
+
 func addNotes(t *rapid.T, m *ref.SNode, st *gen.Style) {
 	texts := []string{"note", "some text 1", "x - y", "a {b} c", "ünï"}
 	if st.MultiLine {
@@ -139,11 +158,13 @@ func TestAST(t *testing.T) {
 		case 0: // ruled plain-JSON trees
 			m := gen.RuledTree(t, rapid.IntRange(1, 3).Draw(t, "depth"), false, "m")
 			addNotes(t, m, st)
+			addAP(t, m)
 			c = Case{Spec: lib.Spec{Schema: string(gen.PrintSchema(m, st))}, Model: m}
 			run.Label("family:ruled-tree")
 		case 1: // rule-free shapes
 			m := gen.ShapeSchema(t, gen.ShapeOpts{Depth: 3, Width: 3}, "m")
 			addNotes(t, m, st)
+			addAP(t, m)
 			c = Case{Spec: lib.Spec{Schema: string(gen.PrintSchema(m, st))}, Model: m}
 			run.Label("family:shape")
 		default: // type graphs: references, or, allOf, key shortcuts
